@@ -179,6 +179,15 @@ theorem pres_initDict (cfg : Cfg) (sb : Bool) (hF : FrameOk R) (hP : ProtOk R) {
   pres_node
   all_goals exact hev _
 
+theorem pres_findImport (cfg : Cfg) (sb : Bool) {ev : Expr → M Out} (hev : ∀ e, Pres R (ev e)) (name : String) :
+    ∀ imports, Pres R (findImport cfg sb ev imports name)
+  | [] => by unfold findImport; pres_node
+  | imp :: rest => by
+    have ih := pres_findImport cfg sb hev name rest
+    unfold findImport
+    pres_node
+    all_goals exact hev _
+
 theorem pres_callValue (cfg : Cfg) (hcc : cfg.callCheck = true) (hF : FrameOk R) (hI : InvokeOk R cfg)
     {ev : Expr → M Out} (hev : ∀ e, Pres R (ev e))
     {evArgs : List Expr → (List Value → M Out) → M Out}
@@ -254,6 +263,7 @@ theorem eval_pres (cfg : Cfg) (hcc : cfg.callCheck = true) (hF : FrameOk R) (hI 
           | (exact pres_callValue cfg hcc hF hI ih (fun es k hk => pres_evalList ih es k hk) _ _ _)
           | exact pres_loopWhile ih _ _ _
           | exact pres_loopFor hF ih _ _ _ _
+          | exact pres_findImport cfg true ih _ _
           | exact pres_initDict cfg true hF (by assumption) ih _
           | skip
     · apply pres_bind (pres_guardCheck _ _ _); intro _
@@ -268,6 +278,7 @@ theorem eval_pres (cfg : Cfg) (hcc : cfg.callCheck = true) (hF : FrameOk R) (hI 
         | (exact pres_callValue cfg hcc hF hI ih (fun es k hk => pres_evalList ih es k hk) _ _ _)
         | exact pres_loopWhile ih _ _ _
         | exact pres_loopFor hF ih _ _ _ _
+        | exact pres_findImport cfg true ih _ _
         | exact pres_initDict cfg true hF (by assumption) ih _
         | skip
 
